@@ -3,7 +3,7 @@
 use super::IpVersion;
 use crate::{
     bencode,
-    message::{Message, TransactionId},
+    message::{Message, MessageBody, TransactionId},
     SocketTrait,
 };
 use async_trait::async_trait;
@@ -76,6 +76,13 @@ impl Socket {
             let (size, addr) = r?;
             match bencode::decode::<Message>(&buffer[0..size]) {
                 Ok(message) => {
+                    // Only responses and errors can complete a pending exchange. A request is
+                    // always passed on to the handler, even if it happens to carry the
+                    // transaction id of a request we have in flight to the same address.
+                    if matches!(message.body, MessageBody::Request(_)) {
+                        return Ok((message, addr));
+                    }
+
                     if let Some(responded) = self
                         .transactions
                         .lock()
